@@ -55,22 +55,24 @@ class Deriv:
 
 C7 = ['x', 'y', 'z', 'vx', 'vy', 'vz', 'm']
 
-def setup(dom, ctx, N, grav, order, na=None, tpt=0):
+def setup(dom, ctx, N, grav, order, na=None, tpt=0, tp=None):
+    """tp = index of a real particle: the variations are single-particle ones (reb_simulation_add_variation_*(r, tp, ...))"""
     I = new_interp(dom, ctx); I.concrete_env = True
     L = build.layout(); sim = Sim(I)
     for i in range(N): sim.add(m=1.0)
     sim.set('gravity', L.enumerators['REB_GRAVITY_' + grav])
     if na is not None: sim.set('N_active', na); sim.set('testparticle_type', tpt)
-    ia = I.call('@reb_simulation_add_variation_1st_order', [sim.ptr, 0xffffffff])
+    tpa = 0xffffffff if tp is None else tp
+    ia = I.call('@reb_simulation_add_variation_1st_order', [sim.ptr, tpa])
     ib = ic = None
     if order == 2:
-        ib = I.call('@reb_simulation_add_variation_1st_order', [sim.ptr, 0xffffffff])
-        ic = I.call('@reb_simulation_add_variation_2nd_order', [sim.ptr, 0xffffffff, ia, ib])
+        ib = I.call('@reb_simulation_add_variation_1st_order', [sim.ptr, tpa])
+        ic = I.call('@reb_simulation_add_variation_2nd_order', [sim.ptr, tpa, ia, ib])
     V = {}
     def fill(base, tag):
-        for i in range(N):
+        for i in (range(N) if tp is None or tag == 'r' else [tp]):
             for c in ('x', 'y', 'z', 'm'):
-                V[(tag, i, c)] = dom.fresh('%s%s%d' % (tag, c, i)); sim.particle(base + i).set(c, V[(tag, i, c)])
+                V[(tag, i, c)] = dom.fresh('%s%s%d' % (tag, c, i)); sim.particle(base + (i if tp is None or tag == 'r' else 0)).set(c, V[(tag, i, c)])
     fill(0, 'r'); fill(ia, 'a')
     if order == 2: fill(ib, 'b'); fill(ic, 'c')
     G = dom.fresh('G'); sim.set('G', G)
@@ -78,16 +80,19 @@ def setup(dom, ctx, N, grav, order, na=None, tpt=0):
 
 def run_force(u):
     rep = Report(); N, grav, order = u['N'], u['gravity'], u['order']
-    label = "force loops %s N=%d order=%d%s " % (grav, N, order, (' N_active=%d testparticle_type=%d' % (u['na'], u.get('tpt', 0))) if u.get('na') is not None else '')
+    tp = u.get('tp')
+    label = "force loops %s N=%d order=%d%s%s " % (grav, N, order, (' N_active=%d testparticle_type=%d' % (u['na'], u.get('tpt', 0))) if u.get('na') is not None else '', (' single-particle variation of particle %d' % tp) if tp is not None else '')
     dom = Real(); ctx = PathCtx()
-    I, sim, V, G, ia, ib, ic = setup(dom, ctx, N, grav, order, u.get('na'), u.get('tpt', 0))
+    I, sim, V, G, ia, ib, ic = setup(dom, ctx, N, grav, order, u.get('na'), u.get('tpt', 0), tp)
+    VI = list(range(N)) if tp is None else [tp]            # particles that are varied
+    off = (lambda i: i) if tp is None else (lambda i: 0)
     I.call('@reb_calculate_acceleration', [sim.ptr])
     I.call('@reb_calculate_acceleration_var', [sim.ptr])
     rep.paths += 1; rep.add_interp(I)
     if ctx.decisions: rep.errors.append(label + "unexpected symbolic branch")
     acc = lambda base, i: [dom.z(sim.particle(base + i).get(a)) for a in ('ax', 'ay', 'az')]
     real = [acc(0, i) for i in range(N)]
-    Da = Deriv(dom, [(V[('r', i, c)], V[('a', i, c)]) for i in range(N) for c in ('x', 'y', 'z', 'm')])
+    Da = Deriv(dom, [(V[('r', i, c)], V[('a', i, c)]) for i in VI for c in ('x', 'y', 'z', 'm')])
     prover = Prover(t_inproc_ms=u.get('t_ms', 20000), use_external=u.get('ext', False), t_ext_s=60)
     ob = Obligations(rep, prover, label)
     def assum(): return [b != 0 for b in dom.divs]
@@ -99,19 +104,18 @@ def run_force(u):
         ok, detail = native_fd(u, vals)
         return ok, 'C16:force:%s:order%d' % (grav, order), detail, dict(unit=u, vals=vals)
     if order == 1:
-        for i in range(N):
-            got = acc(ia, i)
+        for i in VI:
+            got = acc(ia, off(i))
             for k in range(3):
                 ob.prove("variational a[%d].%s == d/dlambda of the real acceleration" % (i, 'xyz'[k]), got[k] == wants[i][k], assum(), axioms=dom.axioms, on_sat=on_sat, domain='REAL + symbolic differentiation')
     else:
-        Db = Deriv(dom, [(V[('r', i, c)], V[('b', i, c)]) for i in range(N) for c in ('x', 'y', 'z', 'm')])
         # second order: d^2 a / dlambda dmu  with  x -> x + lambda da + mu db + lambda mu dc
-        for i in range(N):
-            got = acc(ic, i)
+        for i in VI:
+            got = acc(ic, off(i))
             for k in range(3):
                 first_a = wants[i][k]
                 # derivative of first_a along b, where the a-variation itself varies by c along b
-                Dab = Deriv(dom, [(V[('r', j, c)], V[('b', j, c)]) for j in range(N) for c in ('x', 'y', 'z', 'm')] + [(V[('a', j, c)], V[('c', j, c)]) for j in range(N) for c in ('x', 'y', 'z', 'm')])
+                Dab = Deriv(dom, [(V[('r', j, c)], V[('b', j, c)]) for j in VI for c in ('x', 'y', 'z', 'm')] + [(V[('a', j, c)], V[('c', j, c)]) for j in VI for c in ('x', 'y', 'z', 'm')])
                 want2 = Dab.d(first_a)
                 ob.prove("second-order variational a[%d].%s == d^2/dlambda dmu of the real acceleration" % (i, 'xyz'[k]), got[k] == want2, assum(), axioms=dom.axioms, on_sat=on_sat, domain='REAL + symbolic differentiation')
     ob.witness("inputs", assum(), axioms=dom.axioms)
@@ -129,32 +133,33 @@ def nat():
 def native_fd(u, vals):
     """native replay: variational accelerations against central finite differences of the real accelerations (first order),
     resp. mixed second differences (second order), along the model's variation vectors"""
-    N = u['N']; L = nat().L
+    N = u['N']; L = nat().L; tp = u.get('tp'); tpa = ctypes.c_int(-1 if tp is None else tp)
+    VI = list(range(N)) if tp is None else [tp]; off = (lambda i: i) if tp is None else (lambda i: 0)
     def real_acc(shift):
         ns = nat().create()
         for i in range(N): ns.add(m=1.0)
         ns.set('gravity', L.enumerators['REB_GRAVITY_' + u['gravity']]); ns.set('G', vals['G'])
         if u.get('na') is not None: ns.set('N_active', u['na']); ns.set('testparticle_type', u.get('tpt', 0))
         for i in range(N):
-            for c in ('x', 'y', 'z', 'm'): ns.particle(i).set(c, vals['r%s%d' % (c, i)] + shift(i, c))
+            for c in ('x', 'y', 'z', 'm'): ns.particle(i).set(c, vals['r%s%d' % (c, i)] + (shift(i, c) if i in VI else 0.0))
         ns.call('reb_calculate_acceleration')
         out = [[ns.particle(i).get(a) for a in ('ax', 'ay', 'az')] for i in range(N)]; ns.free(); return out
     ns = nat().create()
     for i in range(N): ns.add(m=1.0)
     ns.set('gravity', L.enumerators['REB_GRAVITY_' + u['gravity']]); ns.set('G', vals['G'])
     if u.get('na') is not None: ns.set('N_active', u['na']); ns.set('testparticle_type', u.get('tpt', 0))
-    ia = ns.call('reb_simulation_add_variation_1st_order', ctypes.c_int(-1), restype=ctypes.c_int)
+    ia = ns.call('reb_simulation_add_variation_1st_order', tpa, restype=ctypes.c_int)
     tags = [('r', 0), ('a', ia)]
     if u['order'] == 2:
-        ib = ns.call('reb_simulation_add_variation_1st_order', ctypes.c_int(-1), restype=ctypes.c_int)
-        ic = ns.call('reb_simulation_add_variation_2nd_order', ctypes.c_int(-1), ctypes.c_int(ia), ctypes.c_int(ib), restype=ctypes.c_int)
+        ib = ns.call('reb_simulation_add_variation_1st_order', tpa, restype=ctypes.c_int)
+        ic = ns.call('reb_simulation_add_variation_2nd_order', tpa, ctypes.c_int(ia), ctypes.c_int(ib), restype=ctypes.c_int)
         tags += [('b', ib), ('c', ic)]
     for tag, base in tags:
-        for i in range(N):
-            for c in ('x', 'y', 'z', 'm'): ns.particle(base + i).set(c, vals['%s%s%d' % (tag, c, i)])
+        for i in (range(N) if tag == 'r' else VI):
+            for c in ('x', 'y', 'z', 'm'): ns.particle(base + (i if tag == 'r' else off(i))).set(c, vals['%s%s%d' % (tag, c, i)])
     ns.call('reb_calculate_acceleration'); ns.call('reb_calculate_acceleration_var')
     tgt = ia if u['order'] == 1 else ic
-    got = [[ns.particle(tgt + i).get(a) for a in ('ax', 'ay', 'az')] for i in range(N)]; ns.free()
+    got = {i: [ns.particle(tgt + off(i)).get(a) for a in ('ax', 'ay', 'az')] for i in VI}; ns.free()
     scale = max(abs(vals[k]) for k in vals if k[0] == 'r') + 1e-300
     h = 1e-5 * scale
     d = lambda tag: (lambda i, c: vals['%s%s%d' % (tag, c, i)])
@@ -162,15 +167,15 @@ def native_fd(u, vals):
         vs = max(abs(vals[k]) for k in vals if k[0] == 'a') + 1e-300
         e = h / vs
         p = real_acc(lambda i, c: e * d('a')(i, c)); m = real_acc(lambda i, c: -e * d('a')(i, c))
-        fd = [[(p[i][k] - m[i][k]) / (2 * e) for k in range(3)] for i in range(N)]
+        fd = {i: [(p[i][k] - m[i][k]) / (2 * e) for k in range(3)] for i in VI}
     else:
         va = max(abs(vals[k]) for k in vals if k[0] == 'a') + 1e-300; vb = max(abs(vals[k]) for k in vals if k[0] == 'b') + 1e-300
         h2 = 1e-3 * scale; ea, eb = h2 / va, h2 / vb
         def f(sa, sb): return real_acc(lambda i, c: sa * ea * d('a')(i, c) + sb * eb * d('b')(i, c) + sa * sb * ea * eb * d('c')(i, c))
         pp, pm, mp, mm = f(1, 1), f(1, -1), f(-1, 1), f(-1, -1)
-        fd = [[(pp[i][k] - pm[i][k] - mp[i][k] + mm[i][k]) / (4 * ea * eb) for k in range(3)] for i in range(N)]
-    worst = 0.0; big = max(abs(x) for r_ in fd for x in r_) + max(abs(x) for r_ in got for x in r_) + 1e-300
-    for i in range(N):
+        fd = {i: [(pp[i][k] - pm[i][k] - mp[i][k] + mm[i][k]) / (4 * ea * eb) for k in range(3)] for i in VI}
+    worst = 0.0; big = max(abs(x) for r_ in fd.values() for x in r_) + max(abs(x) for r_ in got.values() for x in r_) + 1e-300
+    for i in VI:
         for k in range(3): worst = max(worst, abs(fd[i][k] - got[i][k]))
     if not (big < 1e150 and big == big): return False, "degenerate model"
     return worst > 1e-3 * big, "native variational acceleration differs from the finite difference of the real acceleration by %.3g (scale %.3g)" % (worst, big)
@@ -281,7 +286,7 @@ def native_constructor(name, vals):
 
 def native_var(u):
     import random
-    rnd = random.Random(3); N = u['N']; L = nat().L
+    rnd = random.Random(3); N = u['N']; L = nat().L; tp = u.get('tp'); tpn = -1 if tp is None else tp; tpe = 0xffffffff if tp is None else tp
     vals = [[rnd.uniform(-1, 1) for _ in range(4)] for _ in range(4 * N)]
     def build_(create, call, setp, getp):
         pass
@@ -290,10 +295,10 @@ def native_var(u):
     for i in range(N): ns.add(m=1.0)
     ns.set('gravity', L.enumerators['REB_GRAVITY_' + u['gravity']])
     if u.get('na') is not None: ns.set('N_active', u['na']); ns.set('testparticle_type', u.get('tpt', 0))
-    ia = ns.call('reb_simulation_add_variation_1st_order', ctypes.c_int(-1), restype=ctypes.c_int)
+    ia = ns.call('reb_simulation_add_variation_1st_order', ctypes.c_int(tpn), restype=ctypes.c_int)
     if u['order'] == 2:
-        ib = ns.call('reb_simulation_add_variation_1st_order', ctypes.c_int(-1), restype=ctypes.c_int)
-        ic = ns.call('reb_simulation_add_variation_2nd_order', ctypes.c_int(-1), ctypes.c_int(ia), ctypes.c_int(ib), restype=ctypes.c_int)
+        ib = ns.call('reb_simulation_add_variation_1st_order', ctypes.c_int(tpn), restype=ctypes.c_int)
+        ic = ns.call('reb_simulation_add_variation_2nd_order', ctypes.c_int(tpn), ctypes.c_int(ia), ctypes.c_int(ib), restype=ctypes.c_int)
     ntot = ns.get('N')
     for j in range(ntot):
         for q, c in enumerate(('x', 'y', 'z', 'm')): ns.particle(j).set(c, vals[j % len(vals)][q] + (2.0 if c == 'm' and j < N else 0.0) + (3.0 * j if c == 'x' else 0.0))
@@ -304,9 +309,9 @@ def native_var(u):
     for i in range(N): sim.add(m=1.0)
     sim.set('gravity', L.enumerators['REB_GRAVITY_' + u['gravity']])
     if u.get('na') is not None: sim.set('N_active', u['na']); sim.set('testparticle_type', u.get('tpt', 0))
-    ia = I.call('@reb_simulation_add_variation_1st_order', [sim.ptr, 0xffffffff])
+    ia = I.call('@reb_simulation_add_variation_1st_order', [sim.ptr, tpe])
     if u['order'] == 2:
-        ib = I.call('@reb_simulation_add_variation_1st_order', [sim.ptr, 0xffffffff]); ic = I.call('@reb_simulation_add_variation_2nd_order', [sim.ptr, 0xffffffff, ia, ib])
+        ib = I.call('@reb_simulation_add_variation_1st_order', [sim.ptr, tpe]); ic = I.call('@reb_simulation_add_variation_2nd_order', [sim.ptr, tpe, ia, ib])
     for j in range(ntot):
         for q, c in enumerate(('x', 'y', 'z', 'm')): sim.particle(j).set(c, vals[j % len(vals)][q] + (2.0 if c == 'm' and j < N else 0.0) + (3.0 * j if c == 'x' else 0.0))
     I.call('@reb_calculate_acceleration', [sim.ptr]); I.call('@reb_calculate_acceleration_var', [sim.ptr])
@@ -357,7 +362,10 @@ def main():
     us = [dict(what='force', gravity='BASIC', N=2, order=1), dict(what='force', gravity='COMPENSATED', N=2, order=1), dict(what='force', gravity='BASIC', N=2, order=2, t_ms=30000, ext=True)]
     # test particles (N_active < N): active-active, active-testparticle loops and the testparticle_type=1 back-reaction
     us += [dict(what='force', gravity='BASIC', N=2, order=1, na=1, tpt=0), dict(what='force', gravity='BASIC', N=2, order=1, na=1, tpt=1), dict(what='force', gravity='BASIC', N=2, order=2, na=1, tpt=0, t_ms=30000, ext=True)]
+    # single-particle variations (the varied particle is a test particle: only its own coordinates vary)
+    us += [dict(what='force', gravity='BASIC', N=2, order=1, tp=1), dict(what='force', gravity='BASIC', N=3, order=1, tp=1, t_ms=60000, ext=True), dict(what='force', gravity='BASIC', N=2, order=2, tp=1, t_ms=30000, ext=True)]
     if tier == 'thorough': us.append(dict(what='force', gravity='BASIC', N=3, order=1, na=2, tpt=0, t_ms=120000, ext=True))
+    if tier == 'thorough': us += [dict(what='force', gravity='BASIC', N=3, order=2, tp=2, t_ms=120000, ext=True), dict(what='force', gravity='COMPENSATED', N=2, order=1, tp=0)]
     for nm in (['e', 'inc', 'Omega', 'omega', 'f', 'e_e', 'a_e', 'e_f', 'm_e', 'm_f', 'inc_Omega', 'omega_f'] if tier == 'quick' else CLASSICAL): us.append(dict(what='constructor', name=nm, t_ms=15000 if tier == 'quick' else 90000, t_ext=20 if tier == 'quick' else 120))
     if tier == 'thorough': us += [dict(what='force', gravity='BASIC', N=3, order=1, t_ms=60000, ext=True), dict(what='force', gravity='BASIC', N=3, order=2, t_ms=120000, ext=True)]
     rep = run_units(us, worker)
